@@ -222,7 +222,8 @@ class SetMembersMixin:
             # Retarget aliases once the new member is attached,
             # so that they record its full path (not just its name).
             for alias in aliases:
-                with suppress(CyclicAliasError):
+                # The new member can be an alias that cannot be resolved.
+                with suppress(AliasResolutionError, CyclicAliasError):
                     alias.target = value
         else:
             self.members[parts[0]].set_member(parts[1:], value)  # type: ignore[attr-defined]
